@@ -237,10 +237,27 @@ def rule_r7_simple(ck, prog, rule='C13.R7', cls='sdk::logs::SimpleLogRecordProce
     ex = [p for p in g.points if p.n is not None and p.n['k'] == 'call' and p.n.get('virt') and strip_targs(p.n.get('c', '')).endswith('Exporter::Export')]
     if not ex:
         raise AnalysisBroken('%s::%s: call of the exporter not found' % (cls, method))
-    ok = g.exit.id not in g.reachable_from(g.entry, avoid=ex)
-    ck.verdict(ok, rule, f, 'every-record-exported', ex[0].n, 'every path through %s calls the exporter\'s Export' % method if ok else
+    rd = reaching_defs(g)
+
+    def after_shutdown(a, b, lab):
+        # dropping a record once the processor has been shut down is what C02 asks for: the edge on which the shutdown latch reads true
+        if not lab or not isinstance(lab[0], int):
+            return False
+        core, pol = norm_cond(lab[1], lab[0])
+        truth = lab[2] if pol else (not lab[2])
+        names = set()
+        for (sf, sn, sc) in origins(g, rd, lab[1], core, a.ctx):
+            for j in sf.subtree(sn['i']):
+                m = sf.nodes[j]
+                if m['k'] == 'call':
+                    names.add(strip_targs(m.get('c', '')).rsplit('::', 1)[-1])
+                if m['k'] == 'member':
+                    names.add(m['name'])
+        return truth is True and ('IsShutdown' in names or any('shutdown' in x.lower() for x in names if x.endswith('_')))
+    ok = g.exit.id not in g.reachable_from(g.entry, avoid=ex, avoid_edges=after_shutdown)
+    ck.verdict(ok, rule, f, 'every-record-exported', ex[0].n, 'every path through %s calls the exporter\'s Export (except after shutdown)' % method if ok else
                '%s can return without handing the record to the exporter (try-lock / early return): a record emitted while another thread is exporting is dropped' % method,
-               path=None if ok else g.describe_path(g.path(g.entry, g.exit, avoid=ex) or []))
+               path=None if ok else g.describe_path(g.path(g.entry, g.exit, avoid=ex, avoid_edges=after_shutdown) or []))
 
 
 def rule_r1_exposure(ck, prog, rule='C13.R1'):
